@@ -83,7 +83,7 @@ func drawC17(src *vs.Src) *c17Params {
 			p.Auth = true
 		}
 	}
-	p.Variant = pickStr(src, []string{"cover", "cover", "cover", "gap", "gap", "beyond", "conflict-first", "conflict-later"})
+	p.Variant = pickStr(src, []string{"cover", "cover", "cover", "gap", "gap", "beyond", "conflict-first", "conflict-later", "seq-flood"})
 	p.Pieces = 2 + src.Intn(12)
 	return p
 }
@@ -94,6 +94,15 @@ func c17Plan(src *vs.Src, p *c17Params, body []byte) []peer.FragSpec {
 	n := len(body)
 	if n < 2 {
 		return nil
+	}
+	if p.Variant == "seq-flood" {
+		// hundreds of one-byte fragments of messages that will never be completed, each under its own
+		// message_seq and announcing a large message; then the genuine message in one piece
+		var frs []peer.FragSpec
+		for i := 0; i < 300+src.Intn(200); i++ {
+			frs = append(frs, peer.FragSpec{Off: src.Intn(100), Len: 1, Total: 2000 + src.Intn(60000), SeqOff: 20 + i})
+		}
+		return append(frs, peer.FragSpec{Off: 0, Len: n})
 	}
 	// random partition
 	cuts := map[int]bool{0: true, n: true}
@@ -182,7 +191,7 @@ func c17LateFragments(frs []peer.FragSpec, n int) bool {
 func c17Covered(frs []peer.FragSpec, n int) bool {
 	have := make([]bool, n)
 	for _, f := range frs {
-		if f.Total != 0 && f.Total != n {
+		if (f.Total != 0 && f.Total != n) || f.SeqOff != 0 {
 			continue
 		}
 		if f.Off+f.Len > n {
@@ -386,7 +395,7 @@ func c17Frag(c *Case, src *vs.Src, p *c17Params, r *Result) *Result {
 		return r
 	}
 	covered := c17Covered(plan, bodyLen)
-	conflict := p.Variant == "conflict-first" || p.Variant == "conflict-later" || p.Variant == "beyond"
+	conflict := p.Variant == "conflict-first" || p.Variant == "conflict-later" || p.Variant == "beyond" || p.Variant == "seq-flood"
 	switch {
 	case completed && !covered:
 		r.Violate("incomplete-accepted", sigp+" completed-without-coverage", "the %s completed although the fragments of %s (%d bytes) do not cover every byte: %v", p.Role, p.Target, bodyLen, plan)
